@@ -70,6 +70,10 @@ func (c *check) Init(tier string, seed int64) engine.Space {
 		root := buildTree(`<body>x<e1 id=e1 style="display:contents">y</e1>`)
 		ti := analyse(root)
 		contentsSupported = len(ti.byOwner["e1"]) == 0
+		ti = analyse(buildTree(`<body>x<e1 id=e1 style="display:table-cell;position:running(h)">y</e1>`))
+		if r := ti.byOwner["e1"]; len(r) > 0 {
+			runningBlockifiesTableParts = !is(bo.TableCellT, r[0].b)
+		}
 		// the images of the alphabet must load (or the replaced-element symbols are void)
 		for _, d := range []string{objectData, pngURL} {
 			ti = analyse(buildTree(`<body>x<object id=e1 data="` + d + `">y</object>`))
@@ -89,13 +93,14 @@ func (c *check) Init(tier string, seed int64) engine.Space {
 		Bounds: map[string]any{
 			"displays": dispName[:], "forests_of_2": len(c.shapes2), "extras_of_3_element_forests": c.extraNames(3), "forests_of_3": len(c.shapes3), "forests_of_4": len(c.shapes4),
 			"extras": extraName[:], "table_skeletons": len(c.skel), "tables": tables, "span_menu": fmt.Sprint(c.menu),
-			"display_contents_supported_by_implementation": contentsSupported, "init_note": c.initNote,
+			"display_contents_supported_by_implementation": contentsSupported, "running_table_parts_blockified_by_implementation": runningBlockifiesTableParts, "init_note": c.initNote,
 		},
 		Assumptions: []string{
 			"trees deeper or wider than 4 elements (+ pseudo-elements, markers, one <img>) are not explored",
 			"at most one extra deviation per document; for 4 elements at most 3 deviations in total",
 			"quick tier: the extra deviations added with the 2-element forests (footnote, running, loaded replaced elements with content, failing images) are combined with 2-element forests only; the thorough tier combines them with the 3-element forests as well",
-			"the content of a running element (position:running()) is left as built by every anonymous-box pass until a copy is placed in a margin box at layout: only I6/I7 (what generates boxes) are checked inside it",
+			"the content of a running element (position:running()) is left as built by every anonymous-box pass until a copy is placed in a margin box at layout: inside a running box that block or inline layout takes out of the flow (child of a block container, a line or an inline box) only I6/I7 (what generates boxes) are checked; a running box that is a child of a table part or of a flex/grid container is handled by layout as an in-flow child: the structure clauses apply to it and are reported as I1-running-content-unfinished",
+			"GCPM does not define the computed display of a running element: the reference follows the implementation (table-part displays kept, or blockified as for the other out-of-flow boxes), detected at start-up",
 			"footnotes: the boxes reached through a ::footnote-call box of the tree are checked after the step layout applies to a footnote area (CreateAnonymousBox on a block box holding them); a footnote of the list that no call points to is never laid out and is only counted",
 			"display:list-item on a footnote element: whether the list marker survives footnote-display is not specified and not checked",
 			"display values outside the 21 keywords (ruby, run-in, two-keyword forms) are not explored",
